@@ -55,6 +55,9 @@ func checkC04(c *Ctx) {
 	c.Decides("REORIENT-REINDEX: every exported method of Tree that re-orients branches (reaches ReorderEdges) also reaches UpdateBitSet, ComputeEdgeHashes and ComputeDepths: the per-side hash codes and tip counts depend on the orientation")
 	c.reorientReindex("REORIENT-REINDEX", "every branch's recorded split (tip counts on both sides) equals the split obtained by cutting that branch")
 	c.Floor("REORIENT-REINDEX", 3)
+	c.Decides("REORIENT-ALWAYS (go/cfg): Reroot and RerootFirst re-orient the branches (a call reaching ReorderEdges) on every successful exit, also when the root pointer is already the node asked for")
+	c.reorientAlways("REORIENT-ALWAYS", []*FuncInfo{c.Func("tree", "Tree", "Reroot"), c.Func("tree", "Tree", "RerootFirst")}, "every branch's recorded split (tip counts on both sides) equals the split obtained by cutting that branch")
+	c.Floor("REORIENT-ALWAYS", 2)
 	c.Floor("LOSTWRITE", 1)
 	c.Floor("NET", 1)
 	c.Floor("PRESENT", 3)
